@@ -2,7 +2,8 @@
 they drive (per-record behaviour: IpmReader.__next__, IpmWriter.write, VbsReader.__next__, VbsWriter.write are proved
 elsewhere); what is verified here is the plumbing - which encoding, blocking and configuration each side gets, that every
 record read is written once, in order, and that the output is finalised - plus the per-record conversion lemmas.
-cli_run / argparse / real files are NOT verified."""
+argparse and the operating system's files are NOT verified; cli_run is verified as plumbing against an `open` model
+(one file object per name) with the tool function replaced by a recorder."""
 import z3
 from pyvc.runner import unit
 from pyvc.values import *
@@ -466,3 +467,78 @@ def u_cli_mideu(E):
     E.prove('mideu.cli_run/returns-error-status', z3.BoolVal(isinstance(rc, VInt) and rc.conc() == -1), 'P')
     E.prove('mideu.cli_run/prints-stop-banner', z3.BoolVal(stdout_has(E, '*** ERROR - processing has stopped ***')), 'P')
     E.prove('mideu.cli_run/names-the-bad-record', z3.BoolVal(stdout_has(E, 'Error detected in record 2')), 'P')
+
+
+# ---------------------------------------------------------------- command entry points: cli_run hands the options to the tool function
+def cli_plumbing(E, mod, inner, in_param, out_param, in_mode, out_mode, suffix, props_tag, passthrough, vbs_override):
+    """cli_run(**options) opens the named input and output (default name: input + suffix), calls the tool function once with
+    those two files and with every option as the caller gave it (the 1014 option in particular), and returns its outcome"""
+    fi = E.get_function(CLI + mod + '.' + inner)
+    calls = []
+
+    def rec(E2, args, kw):
+        calls.append(E.bind_args(fi, list(args), dict(kw)))
+        return NONE
+    E.contracts[CLI + mod + '.' + inner] = rec
+    cfg = E.lookup_global('config', E.program.modules['cardutil.config'])
+    E.contracts[CLI + 'get_config'] = lambda E2, args, kw: cfg
+    E.contracts[M + 'ipm_info'] = lambda E2, args, kw: E.new_dict({'isValidIPM': TRUE, 'isBlocked': VBool(E.fresh_bool('looks_blocked')), 'encoding': lift('latin1')})
+    no1014 = TRUE if E.choose(2, 'no1014blocking') == 1 else FALSE
+    enc_in, enc_out = E.fresh_seq('str', 'in_encoding'), E.fresh_seq('str', 'out_encoding')
+    E.assume(enc_in.n >= 1)
+    E.assume(enc_out.n >= 1)
+    given_out = E.choose(2, 'out_filename_given') == 1
+    opts = {'in_filename': lift('input.dat'), 'out_filename': lift('result.dat') if given_out else NONE, 'in_encoding': enc_in, 'out_encoding': enc_out,
+            'no1014blocking': no1014, 'debug': FALSE}
+    if 'config_file' in passthrough or mod in ('mci_ipm_to_csv', 'mci_csv_to_ipm'):
+        opts['config_file'] = NONE
+    if vbs_override:
+        opts['in_format'] = lift('1014')
+        opts['out_format'] = lift('1014')
+    tag = '%s.cli_run/plumbing' % mod
+    try:
+        E.call(CLI + mod + '.cli_run', **opts)
+    except PyRaise as pr:
+        E.prove('%s/no-exception(%s)' % (tag, E.exc_name(pr.exc)), False, 'P')
+        return
+    E.prove(tag + '/tool-function-called-once', z3.BoolVal(len(calls) == 1), 'P')
+    if len(calls) != 1:
+        return
+    a = calls[0]
+    extra = a.get('_')
+    extra = E.getf(extra, 'val') if isinstance(extra, VRef) else {}
+    getopt = lambda k: a.get(k) if k in a else (extra.get(k) if isinstance(extra, dict) else None)
+    fs = E.ghost.get('fs', {})
+    opened = E.ghost.get('opened', [])
+    out_name = 'result.dat' if given_out else 'input.dat' + suffix
+    E.prove(tag + '/reads-the-named-input', z3.BoolVal(isinstance(a.get(in_param), VRef) and fs.get('input.dat') is not None and a[in_param].oid == fs['input.dat'].oid
+                                                     and ('input.dat', in_mode) in opened), 'P')
+    E.prove(tag + '/writes-the-named-output-or-input+%s' % suffix, z3.BoolVal(isinstance(a.get(out_param), VRef) and fs.get(out_name) is not None and a[out_param].oid == fs[out_name].oid
+                                                                            and (out_name, out_mode) in opened), 'P')
+    for k in passthrough:
+        v = getopt(k)
+        want = opts[k]
+        if k == 'no1014blocking':
+            E.prove(tag + '/1014-option-as-the-caller-gave-it', z3.BoolVal(isinstance(v, VBool)) if not isinstance(v, VBool) else v.t == no1014.t, 'P')
+        else:
+            E.prove('%s/option-%s-as-the-caller-gave-it' % (tag, k), z3.BoolVal(v is want), 'P')
+    if vbs_override:
+        for k in ('in_format', 'out_format'):
+            v = getopt(k)
+            ok = isinstance(v, VSeq) and conc_str(v) is not None
+            E.prove('%s/%s-is-vbs-exactly-when-1014-blocking-is-switched-off' % (tag, k),
+                    z3.BoolVal(False) if not ok else (no1014.t == z3.BoolVal(conc_str(v) == 'vbs')) if conc_str(v) in ('vbs', '1014') else z3.BoolVal(False), 'P')
+    if 'config' in a:
+        E.prove(tag + '/configuration-from-get_config', z3.BoolVal(isinstance(a['config'], VRef) and a['config'].oid == cfg.oid), 'P')
+
+
+for _mod, _inner, _ip, _op, _im, _om, _sfx, _props, _pt, _vbs in (
+        ('mci_ipm_to_csv', 'mci_ipm_to_csv', 'in_ipm', 'out_csv', 'rb', 'w', '.csv', ['C20'], ['in_encoding', 'no1014blocking'], False),
+        ('mci_csv_to_ipm', 'mci_csv_to_ipm', 'in_csv', 'out_ipm', 'r', 'wb', '.ipm', ['C20'], ['out_encoding', 'no1014blocking'], False),
+        ('mci_ipm_encode', 'mci_ipm_encode', 'in_file', 'out_file', 'rb', 'wb', '.out', ['C19'], ['in_encoding', 'out_encoding'], True),
+        ('mci_ipm_param_encode', 'mci_ipm_param_encode', 'in_file', 'out_file', 'rb', 'wb', '.out', ['C19'], ['in_encoding', 'out_encoding'], True)):
+    def _mk3(mod=_mod, inner=_inner, ip=_ip, op=_op, im=_im, om=_om, sfx=_sfx, props=_props, pt=_pt, vbs=_vbs):
+        def u(E):
+            cli_plumbing(E, mod, inner, ip, op, im, om, sfx, props, pt, vbs)
+        return u
+    unit('%s.cli_run/plumbing' % _mod, props=_props, functions=[CLI + _mod + '.cli_run'])(_mk3())
